@@ -238,6 +238,7 @@ Ltac model_cbv :=
      append_logs validate_term validate_log validate_log_append validate_log_for_vote validate_term_for_vote
      validate_vote_state become_follower update_node append_storage commit_storage st_append st_commit st_logs
      commit reconcile heartbeat_no_timer pre_vote_received vote_received election pre_election clear_votes clear_from
+     reset_rows reset_from ack_counts fix_ack_term
      vote_counts votes count_peers process append is_election is_leader is_candidate is_append_or_hb
      ok log_mismatch mk_req others indices local node_at nth upd_peer upd_local set_peers set_state set_term set_et
      set_storage p_set_log p_set_commit p_set_all p_set_voted
